@@ -28,13 +28,13 @@ def dictify_complex_values(data: dict) -> dict:
 def undictify_complex_values(data: dict) -> dict:
     data = dict(data) # the caller's dictionary is not rewritten
     for key, value in data.items():
-        if isinstance(value, dict) and sorted(list(value.keys())) == sorted(['real', 'imag']):
+        if isinstance(value, dict) and set(value.keys()) == {'real', 'imag'}:
             data[key] = complex(value['real'], value['imag'])
-        if isinstance(value, dict) and sorted(list(value.keys())) == sorted(['abs', 'phase']):
+        if isinstance(value, dict) and set(value.keys()) == {'abs', 'phase'}:
             if value['abs'] < 0:
                 raise ValueError("abs value of '{key}' may not be negative")
             data[key] = value['abs'] * complex(np.cos(value['phase']), np.sin(value['phase']))
-        if isinstance(value, dict) and sorted(list(value.keys())) == sorted(['abs', 'phase_deg']):
+        if isinstance(value, dict) and set(value.keys()) == {'abs', 'phase_deg'}:
             if value['abs'] < 0:
                 raise ValueError("abs value of '{key}' may not be negative")
             phase_rad = np.deg2rad(value['phase_deg'])
